@@ -18,6 +18,24 @@ TIMEOUT = int(os.environ.get('VERIF_CBMC_TIMEOUT', '900'))
 MEMLIMIT_KB = 12000000
 
 
+_shim_labels = None
+
+
+def shim_labels():
+    """labels attached to contract clauses / assertions in shim headers: a comment /*[Cxx.label]*/ on the same line"""
+    global _shim_labels
+    if _shim_labels is None:
+        _shim_labels = {}
+        for fn in os.listdir(SHIM):
+            if not fn.endswith('.h'):
+                continue
+            for i, l in enumerate(open(os.path.join(SHIM, fn)), 1):
+                m = re.search(r'/\*\[((?:C\d+\.[\w.]+,?\s*)+)\]\*/', l)
+                if m:
+                    _shim_labels[(fn, i)] = m.group(1).strip()
+    return _shim_labels
+
+
 class ToolError(Exception):
     pass
 
@@ -72,7 +90,13 @@ def discharge(spec, workroot, keep=False, extra_cbmc=None, trace_props=None, sol
         res["status"] = "extraction-break"
         res["reason"] = "goto-cc rejected the lowered unit (C++ residue or type error):\n" + out[-1500:]
         return res
-    replaced = list(spec.calls) + list(spec.shims)
+    # replace only what the lowered unit actually calls (a listed shim that is not referenced does not exist in the goto model)
+    fn_lo, fn_hi = meta["fn_lines"]
+    body_text = '\n'.join(tu.lines[fn_lo - 1:fn_hi])
+    incl_text = ''
+    for h in spec.includes:
+        incl_text += open(os.path.join(SHIM, h)).read()
+    replaced = [r for r in list(spec.calls) + list(spec.shims) if re.search(r'\b%s\s*\(' % re.escape(r), body_text + incl_text)]
     cmd = ['goto-instrument', '--dfcc', entry, '--enforce-contract', spec.cname]
     for r in replaced:
         cmd += ['--replace-call-with-contract', r]
@@ -132,6 +156,12 @@ def discharge(spec, workroot, keep=False, extra_cbmc=None, trace_props=None, sol
         kind = classify(r['property'], r.get('description', ''))
         if f.endswith('unit.c') and line in tu.labels:
             lab, lk = tu.labels[line]
+        if lab is None and f:
+            lab = shim_labels().get((os.path.basename(f), line))
+        if lab is None:
+            dm = re.match(r'\s*\[([A-Z]\d+\.[^\]]+)\]', r.get('description', ''))
+            if dm:
+                lab = dm.group(1)
         if lab is None and kind == 'safety' and spec.safety and f.endswith('unit.c') and fn_lo <= line <= fn_hi:
             lab = spec.safety
         ob = {"id": r['property'], "status": r['status'], "kind": kind, "label": lab,
